@@ -758,6 +758,8 @@ func checkWorkConservation(m *oracle.Model, events []sched.Event, cycle int, dia
 		total := int64(0)
 		note := ""
 		anyFeasible := false
+		onePodSlotOnly := gr.Shared() // every witness is "join an existing group on a node with exactly one free pod slot"
+		freeDevice := false           // ... and such a node also has a free whole device
 		var worst oracle.Res
 		for _, nn := range rm.names {
 			n := rm.nodes[nn]
@@ -770,6 +772,11 @@ func checkWorkConservation(m *oracle.Model, events []sched.Event, cycle int, dia
 				if ok, how := n.sharedFits(p); ok {
 					s = 1
 					note = nn + ": " + how
+					if n.residual(v1.ResourcePods) != 1 {
+						onePodSlotOnly = false
+					} else if n.gpuFree() >= 1 {
+						freeDevice = true
+					}
 				}
 			} else {
 				s = n.slots(p)
@@ -814,11 +821,21 @@ func checkWorkConservation(m *oracle.Model, events []sched.Event, cycle int, dia
 			}
 			resid[nn] = r
 		}
+		sig := class
+		if gr.Shared() && onePodSlotOnly {
+			// known family: the predicates plugin demands a second pod slot (for a reservation pod) although the pod would
+			// join an existing GPU group
+			if freeDevice && m.Cfg.PluginArgs["nodeplacement"]["gpu"] == "spread" {
+				sig = "shared-gpu-one-pod-slot:free-device-preferred:" + class
+			} else {
+				sig = "shared-gpu-one-pod-slot:group-preferred:" + class
+			}
+		}
 		w := Witness{Cycle: cycle, PodGroup: name, Class: class, Need: need, Request: k8sm.PodRequest(p), Nodes: slots, NodeNote: note,
 			Residual: resid, QueuePath: path, FitErrors: diag.fitErrors[name]}
 		wits = append(wits, w)
 		wb, _ := json.Marshal(w.Nodes)
-		out = append(out, oracle.Viol("C05", "work-conservation", class, cycle,
+		out = append(out, oracle.Viol("C05", "work-conservation", sig, cycle,
 			"after allocate, ready pending workload %s (queue %s, %s, needs %d pod(s) of request %v%s) has no bind and no nomination although it fits the residual capacity left after the action: slots per node %s %s; every queue on its path admits it (%v); scheduler's own fit errors: %q",
 			name, pg.Spec.Queue, preemptWord(m, pg), need, k8sm.PodRequest(p), gpuNote(p), string(wb), note, path, diag.fitErrors[name]))
 	}
